@@ -1304,8 +1304,9 @@ def corr_friends(ctx, corr):
 
 def correspond(ctx):
     corr = c05.correspond(ctx)
-    from harness import bodies
+    from harness import bodies, classdef
     bodies.corr_class_bodies(ctx, corr)
+    classdef.corr_class_defs(ctx, corr)
     corr_friends(ctx, corr)
     corr_op_members(ctx, corr)
     corr_conv_ops(ctx, corr)
